@@ -15,11 +15,15 @@ RULE = ("deployments of 1..3 generated drivers (1-3 groups, five vector kinds, t
         "{none, each property enabled or disabled, unknown} is sent by a recording client. Monitors: recorder on "
         "Router.process_message (messages drivers hand over during the request) and the self-validity monitor on every message any "
         "driver emits (serialise, re-parse, compare views, re-serialise). Oracle: the set of def messages equals the expected "
-        "definitions computed from the generated definition and the driver's public attributes. non-trivial = a request that "
+        "definitions computed from the generated definition and the driver's public attributes. Hardware-backed scenario: every "
+        "element of a Number, a Text and a Switch property is refreshed by a plain Read handler from a model the harness owns; the model "
+        "changes between requests and a read sometimes fails (the handler raises once - that answer is not judged); every later "
+        "definition must list the model's current values. non-trivial = a request that "
         "addresses at least one property; distinct = hash(deployment, history, request)")
 ASSUMPTIONS = ["delProperty answers for disabled properties of addressed devices are allowed (they are not definitions)",
                "number values are compared numerically within the format's resolution (exact rendering is C10's subject)"]
-REQUIRED_EVENTS = ["requests", "definitions_compared", "driver_emitted_messages_validated", "requests_named", "requests_unknown"]
+REQUIRED_EVENTS = ["requests", "definitions_compared", "driver_emitted_messages_validated", "requests_named", "requests_unknown",
+                   "hardware_backed_requests", "requests_during_which_a_read_failed", "hardware_values_compared"]
 
 
 QUICK_SHARDS = 4
@@ -81,6 +85,109 @@ def one_case(ctx, case):
                     return
     finally:
         tap.close()
+
+
+def hardware_case(ctx, i):
+    """Properties backed by 'hardware': plain Read handlers refresh every element from a model the harness owns (the documented
+    reset_value idiom).  The hardware changes between requests and sometimes a read FAILS (the handler raises once): the answer to
+    that request is not judged, but every later request must again list the hardware's current values."""
+    from indi import message as M
+    from indi.routing import Router
+    from vf.ref import number as R
+    rng = ctx.rng("hardware", i)
+    fmts = [rng.choice(["%.2f", "%8.3f", "%.6m", "%d"]) for _ in range(3)]
+    nel = [{"attr": f"e{k}", "name": f"N{k}", "label": None, "default": None, "enabled": True, "format": f, "min": -1e6, "max": 1e6, "step": 0}
+           for k, f in enumerate(fmts)]
+    tel = [{"attr": f"e{k}", "name": f"T{k}", "label": None, "default": None, "enabled": True} for k in range(2)]
+    sel = [{"attr": f"e{k}", "name": f"S{k}", "label": None, "default": None, "enabled": True} for k in range(2)]
+
+    def vec(attr, kind, name, els, **kw):
+        v = {"attr": attr, "kind": kind, "name": name, "label": None, "state": None, "perm": None, "timeout": None, "enabled": True, "elements": els}
+        v.update(kw)
+        return v
+    spec = {"name": "HW", "levels": [{"groups": [{"attr": "g", "name": "G", "enabled": True, "vectors": [
+        vec("n", "Number", "NUM", nel), vec("t", "Text", "TXT", tel), vec("s", "Switch", "SW", sel, rule="AnyOfMany", default_on=None)]}]}]}
+    hardware = {"N0": 1.0, "N1": 2.0, "N2": 3.0, "T0": "a", "T1": "b", "S0": "Off", "S1": "On"}
+    failing = {}
+    calls = {"n": 0, "raised": 0}
+
+    def leaf_hook(ns, defs):
+        from indi.device import events
+        from indi.device.events import on
+        sources = [defs["g"].vectors[va].elements[f"e{k}"] for va, n in (("n", 3), ("t", 2), ("s", 2)) for k in range(n)]
+
+        def poll(self, event):
+            name = event.element.name
+            calls["n"] += 1
+            if failing.get(name):
+                failing[name] -= 1
+                calls["raised"] += 1
+                raise RuntimeError(f"hardware read of {name} timed out")
+            event.element.reset_value(hardware[name])
+        ns["poll"] = on(sources, events.Read)(poll)
+
+    router = Router()
+    drv = D.build(spec, leaf_hook=leaf_hook)(router=router)
+    rec = devmon.RecClient()
+    router.register_client(rec)
+    case = {"mode": "hardware", "i": i}
+    poisoned = False
+    for step in range(30):
+        r = rng.random()
+        if r < 0.4:
+            k = rng.choice(list(hardware))
+            if k[0] == "N":
+                v = round(rng.uniform(-500, 500), 2)
+                hardware[k] = int(v) if fmts[int(k[1])] == "%d" else v
+            elif k[0] == "T":
+                hardware[k] = "t%d" % rng.randrange(1000)
+            else:
+                hardware[k] = rng.choice(["On", "Off"])
+            continue
+        if r < 0.55:
+            failing[rng.choice(list(hardware))] = 1
+            continue
+        name = rng.choice([None, "NUM", "TXT", "SW"])
+        kw = {"version": "1.7", "device": rng.choice(["HW", None])}
+        if name:
+            kw["name"] = name
+        kw = {k: v for k, v in kw.items() if v is not None}
+        del rec.received[:]
+        before = calls["raised"]
+        try:
+            router.process_message(M.GetProperties(**kw), sender=rec)
+        except Exception:
+            pass
+        ctx.count("hardware_backed_requests")
+        if calls["raised"] > before:
+            ctx.count("requests_during_which_a_read_failed")
+            poisoned = True
+            continue                     # a read failed during this request: its answer is not judged
+        defs = {m.name: m for m in rec.received if type(m).__name__.startswith("Def")}
+        for vname, prefix, n in (("NUM", "N", 3), ("TXT", "T", 2), ("SW", "S", 2)):
+            if name not in (None, vname):
+                continue
+            m = defs.get(vname)
+            if m is None:
+                ctx.violate("definition-missing:after-a-failed-read" if poisoned else "definition-missing:hardware-backed",
+                            f"step {step}: request {kw} did not elicit a definition of {vname}", case)
+                return
+            for k in range(n):
+                en = f"{prefix}{k}"
+                child = next((c for c in m.children if c.name == en), None)
+                have = child.value if child is not None else None
+                want = hardware[en]
+                ctx.count("hardware_values_compared")
+                if prefix == "N":
+                    ref = R.parse(str(have)) if have is not None else None
+                    ok = ref is not None and abs(ref - want) <= R.tolerance(fmts[k], want)
+                else:
+                    ok = have == want
+                if not ok:
+                    ctx.violate("definition-lists-stale-value" + (":after-a-failed-read" if poisoned else ""),
+                                f"step {step}: request {kw}: {vname}.{en} is defined with {have!r}, the hardware reads {want!r}", case)
+                    return
+    ctx.case_fast(("hardware", i), nontrivial=True)
 
 
 def request(ctx, case, tap, router, rec, drivers, specs, tracks, dev, name):
@@ -164,7 +271,13 @@ def run(ctx):
         one_case(ctx, gen_case(ctx, i))
         if ctx.enough():
             break
+    for i in range(600 if not ctx.thorough else 20000):
+        if ctx.mine(i):
+            hardware_case(ctx, i)
 
 
 def replay(ctx, case):
+    if case.get("mode") == "hardware":
+        hardware_case(ctx, case["i"])
+        return
     one_case(ctx, case)
